@@ -534,7 +534,7 @@ impl MappableWithClassName for ConstantDynamic {
 	fn remap_with_class_name(self, remapper: &impl BRemapper, this_class: &ObjClassName) -> Result<Self> {
 		Ok(ConstantDynamic {
 			name: self.name, // TODO: remap
-			descriptor: self.descriptor, // TODO: remap
+			descriptor: self.descriptor.remap(remapper)?,
 			handle: self.handle.remap(remapper)?,
 			arguments: self.arguments.remap_with_class_name(remapper, this_class)?,
 		})
@@ -545,7 +545,7 @@ impl MappableWithClassName for InvokeDynamic {
 	fn remap_with_class_name(self, remapper: &impl BRemapper, this_class: &ObjClassName) -> Result<Self> {
 		Ok(InvokeDynamic {
 			name: self.name, // TODO: remap
-			descriptor: self.descriptor, // TODO: remap
+			descriptor: self.descriptor.remap(remapper)?,
 			handle: self.handle.remap(remapper)?,
 			arguments: self.arguments.remap_with_class_name(remapper, this_class)?,
 		})
